@@ -34,7 +34,7 @@ NutCodes(c) ==
     [] c \in {"maxmint", "maxmelt"} -> {11006}
     [] c = "maxbal" -> {20003}
     [] c = "unit" -> {11005}
-    [] c \in {"notarget", "exists"} -> {20009}
+    [] c \in {"notarget", "exists", "mppdisabled", "mppinternal", "mppnotpartial"} -> {20009}
     [] OTHER -> {10000}
 
 HttpTags(h, ok, causes) ==
